@@ -87,6 +87,11 @@ def check_view_accessors(ctx, F, tag):
 
 def check_config(ctx, F, tag):
     check_view_accessors(ctx, F, tag)
+    # "a view is refused exactly when loading refuses": a string view validates its bytes as loading does (zero-count)
+    unchecked_utf8 = [(b.name, loc(t["sp"])) for b in F.all_bodies() if "::tests::" not in b.name for _, t in b.calls()
+                      if callee_name(t).split("::")[-1] in ("from_utf8_unchecked", "from_utf8_unchecked_mut")]
+    ctx.ob("C13.R2.no-unchecked-utf8", "crate" + tag, "src/", not unchecked_utf8, "who-may-call",
+           "str::from_utf8_unchecked calls (count must be 0): %s" % unchecked_utf8[:3], nontrivial=False, positive=True)
     import c06
     c06.check_refusal_inventory(ctx, F, tag, "C13.R2.mapper-refusals-reviewed", lambda n: n.endswith("serialize::MemoryMapped<'a>>::new"))
     if not getattr(ctx, "_map", None):
